@@ -308,8 +308,8 @@ struct Case {
 }
 
 fn build_case<T: Target>(ch: &mut Chooser, origin: P, h: usize, w: usize, mode: HMode) -> Option<Case> {
-    let names_seq = ["a", "b", "c", "x", " b ", "a ", "", "\u{a0}c\t", "x\r\n"];
-    let names_by = ["a", "b", "c", "x"];
+    let names_seq = ["a", "b", "c", "x", " b ", "a ", "", "\u{a0}c\t", "x\r\n", "A", "B "];
+    let names_by = ["a", "b", "c", "x", "A", "C"];
     let mut grid: Vec<Vec<Data>> = vec![];
     let mut hdr: Vec<String> = vec![];
     let has_hdr = mode != HMode::None;
@@ -596,7 +596,7 @@ fn corpus_rows(rep: &Report) {
 
 pub fn check(rep: &Report) {
     corpus_rows(rep);
-    rep.rule("choice tree: origin {(0,0),(2,3)} x height 0..3 x width 1..3 x header mode {none, all, custom selection, struct fields} x header names / ordered selections (padded with blanks or tab / no-break space / newline, unknown) x iterator consumed by next / nth(0) / nth(1) / collect x cell contents over 10 values x 15 target shapes (incl. a unit-variant enum, plain and optional); full product when the job's choice product is <= 1500 (thorough 60000), else all vectors with <= 2 (thorough 3) deviations from the default; non-trivial = at least one non-default choice; distinct = by printed case");
+    rep.rule("choice tree: origin {(0,0),(2,3)} x height 0..3 x width 1..3 x header mode {none, all, custom selection, struct fields} x header names (also names that differ by letter case only) / ordered selections (padded with blanks or tab / no-break space / newline, unknown) x iterator consumed by next / nth(0) / nth(1) / collect x cell contents over 10 values x 15 target shapes (incl. a unit-variant enum, plain and optional); full product when the job's choice product is <= 1500 (thorough 60000), else all vectors with <= 2 (thorough 3) deviations from the default; non-trivial = at least one non-default choice; distinct = by printed case");
     rep.assume("reference row mapper in props/c09.rs (documented conversion rules); Custom error messages are not compared, only the error class; CellError kind and absolute position are compared exactly");
     rep.assume("padded header cells are only combined with positional targets (the statement promises trimming for header selection, not for map keys)");
     let t = crate::thorough(&rep.tier);
